@@ -901,3 +901,15 @@ package litefs
 //@   on call OS.Remove op "ENFORCERETENTION" assert older && i != len(ents) - 1 && (db.store.BackupClient != nil ==> fmax < h)
 //@   loop 1 invariant -1 <= rangeindex && rangeindex < len(ents)
 //@   nopanic
+
+// ===========================================================================
+// litefs.go — contextCause: the reason a done context ended; falls back to ctx.Err() when context.Cause has none.
+// UNCHECKED (untagged) assumption, listed in the evidence: it is called only right after a receive from ctx.Done(), and a
+// done context's Err() is non-nil (the contract of context.Context); the engine does not relate Done() and Err().
+// The cause is never litefs's private marker error errHaltLockAlreadyAcquired (only the callback inside AcquireHaltLock
+// returns it; nothing passes it to a CancelCauseFunc).
+//@ func contextCause
+//@   requires  ctx != nil
+//@   pure
+//@   ensures   result != nil && result != errHaltLockAlreadyAcquired
+
